@@ -349,6 +349,9 @@ func c04Handwritten() []string {
 			Fun("mk", "\u09b8\u09ae\u09df", " "+Fun("up", "\u09ac\u09dc", " \u09b8\u09ae\u09df = \u09b8\u09ae\u09df + \u09ac\u09dc; "+Ret("\u09b8\u09ae\u09df")+" ")+" "+Ret("up")+" "), Var("u1", "mk(1)"), Var("u2", "mk(100)"), Print("u1(1)"), Print("u2(1)"), Print("u1(5)")),
 		// a return without a value yields nil whatever earlier calls returned
 		Lines(Fun("sq", "x", " "+Ret("x * x")+" "), Fun("note", "m", " "+If(`m == ""`, "{ "+Ret("")+" }")+" "+Ret("m")+" "), Print("sq(7)"), Print(`note("")`), Print(`note("x")`), Print(`note("")`), Fun("none", "", " "+Ret("")+" "), Print("[sq(2), none(), sq(3), none()]")),
+		// a call that executes no ফেরত yields nil, whatever its last statement was
+		Lines(Var("acc", "{total: 0}"), Var("cnt", "0"), Fun("dbl", "y", " "+Ret("y * 2")+" "), Fun("f1", "", " acc.total = acc.total + 50; "), Fun("f2", "", " cnt = cnt + 1; "), Fun("f3", "y", " dbl(y); "), Fun("f4", "", " 7; "), Fun("f5", "a", " a[0] = 4; "), Fun("f6", "", " "+If(False(), "{ "+Ret("1")+" }")+" cnt; "),
+			Print("f1()"), Print("f2() == nil"), Print("[f3(2), f4()]"), Var("arr5", "[0]"), Print("f5(arr5)"), Print("f6()"), IfElse("f1()", Print(`"came back"`), Print(`"nothing came back"`)), Print(`"" + cnt + acc.total`)),
 		// the operand of ফেরত may be any expression, an assignment included
 		Lines(Fun("counter", "", " "+Var("n", "0")+" "+Fun("next", "", " "+Ret("n = n + 1")+" ")+" "+Ret("next")+" "), Var("c1", "counter()"), Print("c1()"), Print("c1()"), Var("memo", "[0, 0, 0]"), Fun("sq", "k", " "+Ret("memo[k] = k * k")+" "), Print("sq(2)"), Print("memo"), Var("state", "{last: 0}"), Fun("rec", "v", " "+If("v > 5", "{ "+Ret("state.last = v")+" }")+" "+Ret("state.last = state.last + v")+" "), Print("rec(1)"), Print("rec(9)"), Print("state")),
 		// the operand of ফেরত may start on the following line or after a comment
